@@ -36,6 +36,7 @@ VARIABLES cur,          \* the enum under test: [ok, nm, map, depth]
           pieces,       \* every piece of the successful constructions that led to it, in order
           act           \* the last action
 vars == <<cur, pieces, act>>
+View == <<cur, act>>        \* (pieces is history: one representative path per enum)
 
 (* value alphabets for the configurations (a .cfg cannot write a negative number) *)
 IV_small == {0, 1, -1}
@@ -336,7 +337,7 @@ Rename(nm) == /\ cur.ok /\ nm # cur.nm /\ cur' = [cur EXCEPT !.nm = nm] /\ UNCHA
 (* behaviour: the attempt goes through (the model only records that the enum is not what it was: map lost)          *)
 Mutate(kind) ==
   /\ cur.ok /\ (kind \in MemberMuts \cup {"pop", "popitem", "setitem_old", "setattr_old", "delitem"} => DOMAIN cur.map # {})
-  /\ act' = [a |-> "mutate", kind |-> kind]
+  /\ act' = [a |-> "mutate"]
   /\ UNCHANGED pieces
   /\ IF MutRes(AsImpl, E(cur), kind).r = "accepted" THEN cur' = [cur EXCEPT !.map = NoMap, !.nm = "?"]
      ELSE UNCHANGED cur
